@@ -128,6 +128,21 @@ func runC14(c *Ctx) {
 		r.Functions[fnQual(fn)] = true
 		tname := strings.TrimSuffix(name, ".provide")
 		conns := callsNamed(fn, "(gomavlib."+tname+").connect")
+		if len(conns) == 0 {
+			// connect() written out in the loop: the attempt is the call that yields the connection returned on success
+			seen := map[ssa.Instruction]bool{}
+			for _, ret := range retInstrs(fn) {
+				if len(ret.Results) != 3 || !isNilConst(ret.Results[2]) {
+					continue
+				}
+				if e, ok := ret.Results[1].(*ssa.Extract); ok && e.Index == 0 {
+					if call, ok := e.Tuple.(*ssa.Call); ok && !seen[call] {
+						seen[call] = true
+						conns = append(conns, call)
+					}
+				}
+			}
+		}
 		if len(conns) != 1 {
 			r.Fail("R14.3", name, c.Pos(fn.Pos()), fmt.Sprintf("%d connect() calls", len(conns)))
 			continue
